@@ -169,9 +169,71 @@ pub fn selection(r: &mut Prng, n: usize, t: usize, variant: u64) -> Vec<usize> {
   }
 }
 
+/// Reports picked for what their bytes look like rather than for their inputs: (a) measurements, found by search, whose
+/// share ends in a byte that is ASCII white space (the last field is a raw 64-byte tag, any byte can end it);
+/// (b) at threshold 2, genuine shares moved along the sharing line to the points k and 2^128 + k, which agree in their
+/// low 128 bits. Both kinds must go through encode / decode / recovery like any other.
+fn gen_c01_special(out: &mut Out) {
+  let mut r = Prng::for_case(77, "C01s", 0);
+  let e = b"ep".to_vec();
+  let mut found = 0;
+  for i in 0..2000u32 {
+    if found >= 4 {
+      break;
+    }
+    let m = format!("ws/{}", i).into_bytes();
+    let probe = match make_group(&mut r, m.clone(), e.clone(), 2, true, vec![None]) { Some(g) => g, None => continue };
+    let last = *probe.wire[0].get(probe.wire[0].len() - 4 - 32 - 1).unwrap_or(&1);
+    if ![9u8, 10, 12, 13, 32].contains(&last) {
+      continue;
+    }
+    found += 1;
+    let g = match make_group(&mut r, m.clone(), e.clone(), 2, true, vec![None, Some(vec![1, 2, 3]), Some(vec![])]) { Some(g) => g, None => continue };
+    let sel = vec![0usize, 1, 2];
+    let (obs, m0, pays) = server_side(&g.e, &g.wire, &sel);
+    let r3 = derive3(&g.rnd);
+    let v = if m0.as_deref() != Some(&r3[0][..]) {
+      Err(format!("measurement {}: the share's last byte is white space (0x{:02x}) and the reports do not decode and recover", String::from_utf8_lossy(&m), last))
+    } else if pays.iter().enumerate().any(|(i, p)| *p != Some((g.m.clone(), g.aux[i].clone()))) {
+      Err("a report does not open to what its client supplied".to_string())
+    } else {
+      Ok(())
+    };
+    out.case(scn_case(&g, &sel), format!("wire={} {}", g.wire.iter().map(|b| hex(b)).collect::<Vec<_>>().join(","), obs), v);
+  }
+  for k in [5u128, 12450] {
+    let m = format!("line/{}", k).into_bytes();
+    let mut g = match make_group(&mut r, m.clone(), e.clone(), 2, true, vec![None, Some(vec![9])]) { Some(g) => g, None => continue };
+    let parts: Vec<(Vec<u8>, Vec<u8>, Vec<u8>)> = g.wire.iter().filter_map(|w| split_message(w)).collect();
+    let fs: Vec<ShareFields> = parts.iter().filter_map(|p| split_share(&p.1)).collect();
+    if fs.len() != 2 || fs.iter().any(|f| f.s.len() != 48) {
+      continue;
+    }
+    let pt = |f: &ShareFields| (crate::g_fp::fp_of(&f.s[..24]).unwrap(), crate::g_fp::fp_of(&f.s[24..]).unwrap());
+    let ((x1, y1), (x2, y2)) = (pt(&fs[0]), pt(&fs[1]));
+    let slope = (y2 - y1) * (x2 - x1).invert().unwrap();
+    let targets = [crate::g_fp::fp_of(&crate::g_fp::le24(0, k)).unwrap(), crate::g_fp::fp_of(&crate::g_fp::le24(1, k)).unwrap()];
+    for (i, x) in targets.iter().enumerate() {
+      let y = y1 + slope * (*x - x1);
+      let mut f = ShareFields { a: fs[i].a.clone(), s: vec![], c: fs[i].c.clone(), d: fs[i].d.clone(), j: fs[i].j.clone() };
+      f.s.extend(crate::g_fp::bytes_of(x));
+      f.s.extend(crate::g_fp::bytes_of(&y));
+      g.wire[i] = join_message(&parts[i].0, &join_share(&f), &parts[i].2);
+      g.xs[i] = crate::g_fp::bytes_of(x);
+    }
+    for sel in [vec![0usize, 1], vec![1, 0], vec![0, 0, 1]] {
+      let (obs, m0, _) = server_side(&g.e, &g.wire, &sel);
+      let r3 = derive3(&g.rnd);
+      let v = if m0.as_deref() == Some(&r3[0][..]) { Ok(()) } else { Err(format!("two genuine shares at the points {} and 2^128 + {} (threshold 2) do not recover the shared value", k, k)) };
+      out.case(scn_case(&g, &sel), format!("wire={} {}", g.wire.iter().map(|b| hex(b)).collect::<Vec<_>>().join(","), obs), v);
+    }
+  }
+}
+
 pub fn gen_c01(seed: u64, thorough: bool, only: Option<u64>, out: &mut Out) {
   if only.is_none() {
     gen_reuse(seed, thorough, out);
+    gen_c01_special(out);
   }
   let groups: u64 = if thorough { 400 } else { 36 };
   let ts: &[u32] = if thorough { &[1, 2, 3, 4, 5, 8, 16, 32, 33, 64, 96] } else { &[1, 2, 3, 5, 8, 32] };
@@ -260,6 +322,12 @@ pub fn gen_reuse(seed: u64, thorough: bool, out: &mut Out) {
         let fresh = MessageGenerator::new(SingleMeasurement::new(&m), t, &e);
         let mut want = [0u8; 32];
         fresh.sample_local_randomness(&mut want);
+        // the buffer is output only: what it held before does not matter
+        let mut dirty = [0xa5u8; 32];
+        fresh.sample_local_randomness(&mut dirty);
+        if dirty != want {
+          v = Err(format!("use {} of one generator: the local randomness depends on what the output buffer held before", phase));
+        }
         if want != rnd {
           v = Err(format!("use {} of one generator: its local randomness for measurement {} differs from a fresh generator's", phase, hex(&m)));
         }
@@ -768,6 +836,28 @@ fn gen_c03_cross(seed: u64, thorough: bool, out: &mut Out) {
     }
     let (obs_b, _, _) = server_side(&gb.e, &gb.wire, &[0]);
     out.case(scn_case(&gb, &[0]), format!("wire={} {}", gb.wire.iter().map(|b| hex(b)).collect::<Vec<_>>().join(","), obs_b), v);
+    // the same measurement and epoch under two thresholds: the key recovered by the cohort that reached the smaller
+    // threshold must not open a lone report made under the larger one, and the tags differ
+    {
+      let x1 = r.bytes(7);
+      let lo = make_group(&mut r, ma.clone(), e.clone(), t, true, (0..t).map(|_| None).collect());
+      let hi = make_group(&mut r, ma.clone(), e.clone(), t + 1 + 256 * (gi as u32 % 2), true, vec![Some(x1)]);
+      if let (Some(lo), Some(hi)) = (lo, hi) {
+        let mut v = Ok(());
+        if split_message(&lo.wire[0]).map(|x| x.2) == split_message(&hi.wire[0]).map(|x| x.2) {
+          v = Err(format!("one measurement and epoch under thresholds {} and {} has the same tag", lo.t, hi.t));
+        }
+        let key_lo = ske_key(&derive3(&lo.rnd)[0], &e);
+        if let Some(msg) = Message::from_bytes(&hi.wire[0]) {
+          let p = msg.ciphertext.decrypt(&key_lo, "star_encrypt");
+          if strict_payload(&p).map_or(false, |(mm, _)| mm == ma) {
+            v = Err(format!("a lone report under threshold {} opens with the key recovered under threshold {}", hi.t, lo.t));
+          }
+        }
+        let (obs_hi, _, _) = server_side(&e, &hi.wire, &[0]);
+        out.case(scn_case(&hi, &[0]), format!("wire={} {}", hi.wire.iter().map(|b| hex(b)).collect::<Vec<_>>().join(","), obs_hi), v);
+      }
+    }
     // the same measurement under two epochs that are not text and differ in one byte: one report each (threshold 2)
     // must not pool
     if gi % 3 == 0 {
